@@ -332,7 +332,28 @@ def gen_cases(rng, tier):
             for signer in ("idp_sign", "attacker"):
                 yield {"kind": kind, "md": {"configured": False, "entities": []}, "only_md": only, "issuer": e_id,
                        "signer": signer, "keyinfo": {"certs": [signer], "rsa": None}}
-    # 4. random metadata shapes
+    # 4. directed metadata shapes: a signing key descriptor without X509Data (MetaData.certs raises KeyError),
+    #    the same with use="encryption" (not looked at), an entity with an encryption key only, an entity
+    #    without any key, keys spread over two role descriptors of the entity
+    for kind in KINDS:
+        role = "idpsso" if kind in SP_RECEIVES else "spsso"
+        e_id, m_id, u_id = ids_for(kind)
+        shapes = [
+            [{"kind": role, "keys": [{"use": "signing", "certs": None}, kd("signing", "idp_sign"), kd("encryption", "idp_enc")]}],
+            [{"kind": role, "keys": [kd(None, "idp_sign")]}, {"kind": "attribute_authority", "keys": [{"use": None, "certs": None}]}],
+            [{"kind": role, "keys": [{"use": "encryption", "certs": None}, kd("signing", "idp_sign")]}],
+            [{"kind": role, "keys": [kd("encryption", "idp_enc")]}],
+            [{"kind": role, "keys": []}],
+            [{"kind": "pdp", "keys": [kd(None, "idp_sign2")]}, {"kind": role, "keys": [kd("signing", "idp_sign", "idp_enc")]},
+             {"kind": "authn_authority", "keys": [kd("encryption", "member2")]}],
+        ]
+        for roles in shapes:
+            md = {"configured": True, "entities": [{"id": e_id, "roles": roles}]}
+            for only in (True, False, None):
+                for signer in ("idp_sign", "idp_sign2", "idp_enc", "attacker"):
+                    for ki in ({"certs": [], "rsa": None}, {"certs": [signer], "rsa": None}):
+                        yield {"kind": kind, "md": md, "only_md": only, "issuer": e_id, "signer": signer, "keyinfo": ki}
+    # 5. random metadata shapes
     n_md, per = (40, 12) if tier == "quick" else (400, 20)
     for c in random_cases(rng, n_md, per):
         yield c
